@@ -449,6 +449,11 @@ func (e *exec) pump() {
 				e.trace = append(e.trace, fmt.Sprintf("sub%d.closed-by-server", i))
 				break
 			}
+			if evt.IsNewSnapshotToFollow() {
+				// the server could not resume this subscriber and starts it over: its snapshot may be a cached one that is
+				// older than what the client had (the spliced events catch it up), so monotonicity restarts here
+				s.lastIdx = 0
+			}
 			az := s.subj.authz
 			if az == nil {
 				az = acl.ManageAll()
@@ -706,6 +711,21 @@ func Run(c *ev.Ctx) {
 				}
 			}
 		}
+	}
+	// a subscriber that comes back with the index it already has (the server resumes it without a snapshot) and leaves
+	// again, next to one that stays: the topic buffer's user count must survive that
+	resumeSet := progSet{"two subscribers, one resumes and leaves", two, [][]string{{aSub, aDisc, aSub, aDisc}, {aSub}}}
+	// (two writes: the first one gives the topic buffer a head the returning subscriber can resume from, the second one is
+	// the one the staying subscriber must still get)
+	resumeWrites := []write{catalog[2], catalog[5], catalog[9], catalog[13]}
+	if !quick {
+		resumeWrites = catalog
+	}
+	for _, ws := range seqs(resumeWrites, 2) {
+		add("seed1: "+label(ws), seedA, ws, hA, resumeSet)
+	}
+	for _, ws := range seqs(resolver[:3], 2) {
+		add("seed1: "+label(ws), seedA, ws, rA, resumeSet)
 	}
 	// subscribers with different permissions on one subject: they share topic buffers and the cached
 	// snapshot, and batches holding several events are filtered per subscriber
